@@ -18,6 +18,116 @@ def src(n):
     return re.sub(r'\s+', '', n.get('s') or '')
 
 
+def slice_dimensions(ctx, r3):
+    """XGenerator::slice(base, start, end) stores Slice(inner, start', end') with an *absolute* end.  Necessary conditions,
+    checked on every path of the MIR:
+      merge (base is itself a Slice(inner, inner_start, inner_end)):
+        start' depends on inner_start and start;
+        whenever `end` may be Some, end' depends on end and inner_start (end + inner_start);
+        whenever `inner_end` may be Some, end' depends on inner_end (the earlier bound still binds);
+      plain: start' depends on start only, end' on end only;
+      consumer (_iter, Slice arm): the count handed to take() depends on both the stored end and the stored start, the count
+        handed to skip() on the stored start."""
+    from .lib.pathdeps import PathDeps
+    mir = ctx.mir
+    bs = mir.find(GEN + '::slice')
+    if len(bs) != 1:
+        r3.fail('anchor/slice', F, 'XGenerator::slice not found in the MIR')
+        return
+    b = bs[0]
+    dbg = {v['name']: v['val'] for v in b.dbg if 'l' in v['val']}
+    pstart = dbg.get('start', {}).get('l')
+    pend = dbg.get('end', {}).get('l')
+    if b.d['argc'] != 3 or pstart is None or pend is None:
+        # parameters by position: (base, start, end)
+        pstart, pend = 2, 3
+
+    def source_of(p):
+        fields = [e for e in p['p'] if isinstance(e, dict)]
+        for i, e in enumerate(fields):
+            if e.get('dc') == 'Slice' and i + 1 < len(fields) and 'f' in fields[i + 1]:
+                return {0: 'inner', 1: 'inner_start', 2: 'inner_end'}.get(fields[i + 1]['f'])
+        if p['l'] == pstart:
+            return 'start'
+        if p['l'] == pend:
+            return 'end'
+        return None
+
+    pd = PathDeps(b, source_of)
+    aggs = [(i, j, s) for i, j, s in b.stmts() if s['k'] == 'assign' and s['rv']['k'] == 'agg' and s['rv'].get('ak') == 'adt'
+            and s['rv']['adt'].endswith('generators::XGenerator') and s['rv']['v'] == 'Slice']
+    n_merge = n_plain = 0
+    for i, j, s in aggs:
+        paths, trunc = pd.run(i, 'stmt', j)
+        if trunc or not paths:
+            r3.fail('slice/paths', mirq.site(b, i, j), 'could not enumerate the paths to this Slice construction')
+            continue
+        merged = any('inner' in pth['deps'][0] for pth in paths)
+        for pth in paths:
+            d0, d1, d2 = pth['deps'][:3]
+            kn = pth['known']
+            probs = []
+            if merged:
+                if not {'inner_start', 'start'} <= d1:
+                    probs.append(('start', 'the merged start does not depend on both the inner start and the new start (%s)' % sorted(d1)))
+                if kn.get('end') != 0 and not {'end', 'inner_start'} <= d2:
+                    probs.append(('end-new', 'on a path where the new end may be present, the merged end does not depend on it and on the inner start (%s)' % sorted(d2)))
+                if kn.get('inner_end') != 0 and 'inner_end' not in d2:
+                    probs.append(('end-inner', 'on a path where the inner slice may already be bounded, the merged end does not depend on that bound (%s): a later take() re-opens the stream past the earlier one' % sorted(d2)))
+            else:
+                if 'start' not in d1:
+                    probs.append(('plain-start', 'the stored start does not depend on the start argument'))
+                if kn.get('end') != 0 and 'end' not in d2:
+                    probs.append(('plain-end', 'the stored end does not depend on the end argument'))
+            r3.inst({'site': mirq.site(b, i, j), 'kind': 'merge' if merged else 'plain', 'known_on_path': kn, 'start_from': sorted(d1), 'end_from': sorted(d2)}, ok=not probs, kind=('merge' if merged else 'plain', tuple(sorted(kn.items()))))
+            for key, msg in probs:
+                r3.fail('slice/%s' % key, mirq.site(b, i, j), 'XGenerator::slice: ' + msg)
+        if merged:
+            n_merge += 1
+        else:
+            n_plain += 1
+    if n_merge < 1 or n_plain < 1:
+        r3.fail('anchor/slice-sites', mirq.site(b, 0), 'expected one merging and one plain construction of Slice in XGenerator::slice (found %d / %d)' % (n_merge, n_plain))
+    # consumer
+    fam = [x for x in mir.bodies if x.nid == GEN + '::_iter' or x.nid.startswith(GEN + '::_iter::{closure')]
+
+    def src2(p):
+        fields = [e for e in p['p'] if isinstance(e, dict)]
+        for i2, e in enumerate(fields):
+            if e.get('dc') == 'Slice' and i2 + 1 < len(fields) and 'f' in fields[i2 + 1]:
+                return {0: 'gen', 1: 'stored_start', 2: 'stored_end'}.get(fields[i2 + 1]['f'])
+        return None
+    n_take = n_skip = 0
+    for x in fam:
+        pdx = None
+        for bb, tm in x.calls():
+            nm = strip_generics(tm.get('decl') or tm.get('callee') or '')
+            if nm not in ('std::iter::Iterator::take', 'std::iter::Iterator::skip') or len(tm['args']) < 2:
+                continue
+            pdx = pdx or PathDeps(x, src2)
+            paths, trunc = pdx.run(bb, 'call')
+            rel = [pth for pth in paths if pth['deps'][1] & {'stored_start', 'stored_end'} or 'gen' in pth['deps'][0]]
+            if not rel:
+                continue
+            for pth in rel:
+                d = pth['deps'][1]
+                if nm.endswith('take'):
+                    n_take += 1
+                    ok = {'stored_start', 'stored_end'} <= d
+                    r3.inst({'consumer': 'take', 'site': mirq.site(x, bb), 'count_from': sorted(d)}, ok=ok, kind=('take', x.nid, bb))
+                    if not ok:
+                        r3.fail('_iter/Slice/take', mirq.site(x, bb), 'the Slice consumer takes a count computed from %s: the stored end is absolute, so the count must be end - start' % sorted(d))
+                else:
+                    n_skip += 1
+                    ok = 'stored_start' in d and 'stored_end' not in d
+                    r3.inst({'consumer': 'skip', 'site': mirq.site(x, bb), 'count_from': sorted(d)}, ok=ok, kind=('skip', x.nid, bb))
+                    if not ok:
+                        r3.fail('_iter/Slice/skip', mirq.site(x, bb), 'the Slice consumer skips a count computed from %s instead of the stored start' % sorted(d))
+    if n_take < 1 or n_skip < 1:
+        r3.fail('anchor/consumer', F, 'the Slice arm of _iter (skip(start) / take(end - start)) was not found (%d take, %d skip)' % (n_take, n_skip))
+    r3.need(4)
+
+
 def run(ctx):
     mir = ctx.mir
     ast = ctx.ast
@@ -67,30 +177,6 @@ def run(ctx):
         r2.fail('anchor/inner-iters', F, 'fewer recursive _iter calls than confirmed by hand')
     r2.need(2)
 
-    # ---------------- R16.3
+    # ---------------- R16.3 (path-sensitive dependences on the MIR; independent of how the merge / the consumer are written)
     r3 = ctx.rule('R16.3', 'slice: absolute end stored, end-start taken, nested slices merged by adding the inner start')
-    fns = {fn['name']: fn for f, fn, im in astq.all_fns(ast) if f == F and im is not None and 'XGenerator' in im.get('self_ty', '')}
-    it = fns.get('_iter')
-    sl = fns.get('slice')
-    if not it or not sl:
-        r3.fail('anchor/slice', F, '_iter / slice not found')
-    else:
-        arms = [a for m, _ in find_nodes(it['body'], lambda y: y.get('k') == 'match') for a in m['arms'] if src(a['pat']).startswith('Self::Slice(')]
-        ok = False
-        if arms:
-            takes = [c for c, _ in find_nodes(arms[0]['body'], lambda y: y.get('k') == 'mcall' and y['method'] == 'take')]
-            for c in takes:
-                a = src(c['args'][0]) if c['args'] else ''
-                if 'end' in a and 'start' in a and ('-' in a or 'sub' in a):
-                    ok = True
-            skips = [c for c, _ in find_nodes(arms[0]['body'], lambda y: y.get('k') == 'mcall' and y['method'] == 'skip')]
-            ok = ok and all('start' in src(c['args'][0]) for c in skips) and bool(skips)
-        r3.inst({'consumer': 'skip(start).take(end - start)'}, ok=ok)
-        if not ok:
-            r3.fail('_iter/Slice/take', '%s:%d' % (F, it['line']), 'the Slice consumer does not take end - start elements although slice() stores an absolute end')
-        body = ''.join(src(x) for x, _ in find_nodes(sl['body'], lambda y: 's' in y and y.get('k') in ('binary', 'mcall', 'call')))
-        ok2 = 'inner_start+start' in body and 'e+inner_start' in body and '.min()' in body
-        r3.inst({'merge': 'Slice(inner, inner_start+start, min(inner_end, end+inner_start))'}, ok=ok2)
-        if not ok2:
-            r3.fail('slice/merge', '%s:%d' % (F, sl['line']), 'slice() no longer merges nested slices with absolute positions (inner_start+start, min(inner_end, end+inner_start))')
-    r3.need(2)
+    slice_dimensions(ctx, r3)
